@@ -290,7 +290,17 @@ fn apply<const B: usize, const L: usize>(op: u64, a: Uint<B, L>, b: Uint<B, L>, 
             }
             vec![Uint::from_limbs(l)]
         }),
-        88 => ("approx_pow2", o(Uint::<B, L>::approx_pow2((k % (B as u64 + 8)) as f64 + 0.3))),
+        88 => ("approx_pow2", {
+            // exponents on both sides of BITS, whole (exactly BITS included) and fractional, and the
+            // approx_log2 of an earlier value fed back in
+            let whole = (k % (B as u64 + 8)) as f64;
+            let frac = [0.0, 0.3, 0.5, 0.999_999, -0.25, 0.0][(k >> 32) as usize % 6];
+            let mut v = o(Uint::<B, L>::approx_pow2(whole + frac));
+            v.extend(Uint::<B, L>::approx_pow2(a.approx_log2()));
+            v.extend(Uint::<B, L>::approx_pow2(a.approx_log2().ceil()));
+            v.extend(Uint::<B, L>::approx_pow2(B as f64 - frac));
+            v
+        }),
         89 => ("try_from(u128)", Uint::<B, L>::try_from(u128::from(k) * u128::from(k)).ok().into_iter().collect()),
         90 => ("try_from(f64)", Uint::<B, L>::try_from((k % 100000) as f64 + 0.5).ok().into_iter().collect()),
         93 => ("by-reference operators", vec![&a + &b, &a - &b, &a * &b, a + &b, &a - b, a * &b, &a & &b, &a | &b, &a ^ &b, !&a, -&a]),
